@@ -188,6 +188,9 @@ class _APEv2Data(object):
             # If we're reading the header, the size is the header
             # offset + the size, which includes the footer.
             self.end = self.data + self.size
+            # a header claiming more than the file holds: the tag ends
+            # where the file ends
+            self.end = min(self.end, max(get_size(fileobj), self.data))
             fileobj.seek(self.end - 32, 0)
             if fileobj.read(8) == b"APETAGEX":
                 self.footer = self.end - 32
